@@ -3,7 +3,7 @@ from runner import Prop
 from vlib import Case
 import mb, cligen
 
-ERRNOS = [None, 0, 2, 11, 104]
+ERRNOS = [None, 0, 2, 11, 104, 103, 32, 107, 110]
 FAULT_KINDS = ["ConnectionReset", "Other", "TimedOut", "PermissionDenied", "BrokenPipe", "UnexpectedEof", "InvalidData", "NotConnected"]
 
 
@@ -13,7 +13,7 @@ class PROP(Prop):
     rule = ("for a spread of request shapes, TCP and RTU: reply truncated at EVERY byte offset followed by end of stream or a read error of "
             "each tested kind; write fault (error, zero-length write) at EVERY offset of the request frame for write granularities "
             "{1,2,3,7,all} and pending patterns; flush errors; fault-free piecewise writes; each under ambient errno states "
-            "{untouched,0,2,11,104} forced before every poll.  non-trivial = a fault or a piecewise write was actually injected")
+            "{untouched,0,2} (quick; +11,104,103,32,107,110 thorough and always for the orderly end of stream) forced before every poll.  non-trivial = a fault or a piecewise write was actually injected")
 
     def shapes(self, rng, tier):
         reqs = [("RHR", 0, 2), ("RC", 7, 19), ("WSC", 3, True), ("WMR", 9, [1, 2, 3]), ("RSI",), ("MWR", 1, 2, 3), ("WMC", 1, [True] * 11)]
@@ -34,6 +34,7 @@ class PROP(Prop):
                 frame = cligen.frame(proto, 0, slave, mb.spec_req_pdu(req))
                 good = "OK:" + mb.show_rsp(mb.pad_rsp(rsp))
                 errnos = ERRNOS if tier == "thorough" else [None, 0, 2]
+                eof0_errnos = ERRNOS      # the orderly end of stream before any reply byte: every errno state, always
                 # --- read faults at every offset
                 for k in range(0, len(reply)):
                     for tail in ["eof"] + ["e:" + x for x in (FAULT_KINDS if tier == "thorough" else FAULT_KINDS[:3])]:
@@ -42,7 +43,7 @@ class PROP(Prop):
                                 continue
                             parts = [reply[:k]] if not split else [reply[:k // 2], reply[k // 2:k]]
                             R = mb.rscript(parts, [tail])
-                            for en in errnos:
+                            for en in (eof0_errnos if (k == 0 and tail == "eof") else errnos):
                                 cs.append(Case(cligen.cli_line(proto, slave, [cligen.call_op(req, R=R)]),
                                                {"k": "rfault", "off": k, "tail": tail, "frame": frame.hex(), "proto": proto}, errno=en))
                 # --- write faults at every offset
